@@ -71,7 +71,7 @@ def run(ctx, binary, mdrv, props, n, steps, seed, tag="stream", profiles=("mixed
     for a, b in sorted(stats.items()): ctx.count("stream:" + a, b)
     ties = []
     if mdrv:
-        ties = hs_tie(ctx, mdrv, runs) + rot_tie(ctx, mdrv, runs)
+        ties = hs_tie(ctx, mdrv, runs) + rot_tie(ctx, mdrv, runs) + rd_tie(ctx, mdrv, runs)
     return found, ties
 
 
@@ -114,13 +114,26 @@ def hs_cases(tr):
             srd = [int(e.split()[2]) for e in evs if e.startswith("srd " + k + " ")]
             if before < 5 <= len(c["rx"]) and c["after5"] is None:
                 c["after5"] = srd[0] if srd else 0
-            if st.get("cur") == k and st.get("wc") == "1": c["outcome"] = "established"
+            if st.get("cur") == k and st.get("wc") == "1": c["outcome"] = "established"; c["sp"] = st.get("sp"); c["caps"] = st.get("caps")
             elif any(e == "sshut " + k for e in evs): c["outcome"] = "shutdown"
             elif srd: c["outcome"] = "need"
             else: c["outcome"] = "other"
             if st.get("open") != "1": dirty.add(k)
         if st.get("wc") == "1": was_cur.add(st.get("cur"))
     return {k: c for k, c in out.items() if k not in dirty or c["outcome"] in ("established", "shutdown")}
+
+
+
+
+def canon_plist(txt):
+    """property list text `id=value;…` (model: in arrival order; harness: the container, single-valued slots keep the last value) -> comparable form"""
+    out = {}
+    for it in (txt or "-").split(";"):
+        if it in ("", "-"): continue
+        k, _, v = it.partition("=")
+        if int(k) == 38: out.setdefault(38, []).append(v)
+        else: out[int(k)] = [v]
+    return out
 
 
 def hs_tie(ctx, mdrv, runs):
@@ -142,6 +155,15 @@ def hs_tie(ctx, mdrv, runs):
             exp = {"established": "established", "retry": "shutdown", "malformed": "shutdown", "need": "need"}.get(o.split()[0], "?")
             if exp != c["outcome"]:
                 bad.append(dict(what=f"handshake on {k}: model says '{o}', real connect_op: {c['outcome']}", rx=bytes(c["rx"]).hex(), lines=[l for l, _, _, _ in sc.tr]))
+            elif exp == "established":
+                # what connect_op stored for the rest of the client: the Session Present flag and the CONNACK properties
+                msp = o.split("sp=")[1].split()[0]; mprops = o.split("props=")[1].strip()
+                if c.get("sp") is not None and msp != c["sp"]:
+                    bad.append(dict(what=f"handshake on {k}: model stores Session Present {msp}, real connect_op stored {c['sp']}", rx=bytes(c["rx"]).hex(), lines=[l for l, _, _, _ in sc.tr]))
+                if c.get("caps") is not None:
+                    ctx.count("hs-props-compared"); ctx.count("hs-props-nonempty", 1 if canon_plist(mprops) else 0)
+                    if canon_plist(mprops) != canon_plist(c["caps"]):
+                        bad.append(dict(what=f"handshake on {k}: model stores CONNACK properties {mprops}, real connect_op stored {c['caps']}", rx=bytes(c["rx"]).hex(), lines=[l for l, _, _, _ in sc.tr]))
             ctx.count("hs-model-vs-impl:" + o.split()[0])
         else:
             if o.startswith("more"):
@@ -258,11 +280,64 @@ def phase(ctx, prop, n, steps):
                                  "script": small, "events": [" | ".join(e)[:300] for _, e, _, _ in tr],
                                  "stderr": (dead[1][-1500:] if dead else ""), "replay_hint": "feed `script` line by line to .build/h/h_stream/*"})
         hit = True
-    if prop == "C10":
+    if prop == "C12": ties = [b for b in ties if b.get("rd")]
+    else: ties = [b for b in ties if not b.get("rd")]
+    if prop == "C13": ties = [b for b in ties if "Session Present" in b["what"]]
+    if prop == "C15": ties = [b for b in ties if "CONNACK properties" in b["what"]]
+    if prop in ("C10", "C12", "C13", "C15"):
         for b in ties[:1]:
             tr, dead = replay_lines(hb, b["lines"])
-            ctx.ties_broken.append("correspondence:connection model differs from the implementation: " + b["what"][:600])
+            ctx.ties_broken.append(("correspondence:" if b.get("rd") else "correspondence:connection model differs from the implementation: ") + b["what"][:600])
             ctx.cov.setdefault("tie_replays", []).append({"what": b["what"], "script": b["lines"]})
     return hit
 
 
+
+
+# ------------------------------------------------------------------ timed read (Lean `tracerd` engine, Model/TraceRd.lean)
+def abstract_rd(tr):
+    """the timed reads of an H-stream transcript as the alphabet of Model/TraceRd.lean: s:<limit|-> a read begins on a connected stream,
+    t:<ms> time passes, f it ends for another reason (bytes, socket error, cancel, close), a the read timer cancelled the socket read, e end of line.
+    Which socket read belongs to which read operation is observation; every comparison of times is left to the model."""
+    toks = []
+    cur = None          # (op id, socket) of the read in progress
+    for i, (line, evs, st, t) in enumerate(tr):
+        ws = line.split(); cmd = ws[0] if ws else ""
+        if evs == ["<crash>"] or evs == ["<bad-op>"]: break
+        if cmd == "advance": toks.append(f"t:{int(ws[1])}")
+        new = None
+        for e in evs:
+            w = e.split()
+            if w[0] == "srd" and cmd == "read":
+                new = (int(ws[1]), w[1], "-" if ws[3] == "inf" else str(int(ws[3])))
+            if cur and w[0] in ("cancelled", "cancelreq") and len(w) > 2 and w[1] == "srd" and w[2] == cur[1]:
+                toks.append("a" if cmd == "advance" else "f"); cur = None
+            if cur and w[0] == "rdone" and int(w[1]) == cur[0]: toks.append("f"); cur = None
+            if cur and w[0] == "sclose" and w[1] == cur[1]: toks.append("f"); cur = None
+        if cur and cmd in ("srx", "srdone") and ws[1] == cur[1]: toks.append("f"); cur = None
+        if new:
+            toks.append("s:" + new[2]); cur = (new[0], new[1])
+        else:
+            toks.append("e")
+    return toks
+
+
+def rd_tie(ctx, mdrv, runs):
+    qs = []; keep = []
+    for sc in runs:
+        toks = abstract_rd(sc.tr)
+        if not any(t.startswith("s:") for t in toks): continue
+        qs.append("tracerd " + " ".join(toks)); keep.append((sc, toks))
+    if not qs: return []
+    outs, rc, err = vlib.run_lines(mdrv, qs)
+    bad = []
+    for (sc, toks), o in zip(keep, outs):
+        ctx.count("tracerd:transcripts-replayed-through-timed-read-model")
+        ctx.count("tracerd:reads", sum(1 for t in toks if t.startswith("s:")))
+        ctx.count("tracerd:abandoned-by-timer", toks.count("a"))
+        if o == "accept": continue
+        ws = o.split(" ", 3)
+        reason = ws[3] if len(ws) > 3 else o
+        ctx.count("tracerd:refused:" + reason.split()[0])
+        bad.append(dict(what=f"timed-read model (Model/TraceRd.lean) refuses a transcript of the real autoconnect_stream at event {ws[1] if len(ws) > 1 else '?'}: {reason}", lines=[l for l, _, _, _ in sc.tr], rd=True))
+    return bad
